@@ -29,7 +29,7 @@ TECH = {
     "C17": "RF-TAB return-code/metacharacter table agreement + RF-IVL capacity",
     "C18": "RF-LOCK lockset + lock order + RF-DOM service-mask dominance",
     "C19": "RF-TAB message-type exhaustiveness/length + RF-TAINT client fields to sinks + RF-STATE token transitions",
-    "C20": "RF-LOCK lockset over documented cross-thread entry points + lock pairing + lock-order acyclicity",
+    "C20": "RF-LOCK context-sensitive must-lockset (path-sensitive typestate, caller lockset as context) over the documented cross-thread entry points + lock pairing on all paths + callbacks-without-locks + lock-order acyclicity",
 }
 
 NA_REASON = {
